@@ -110,6 +110,10 @@ impl LoadBalancer {
   pub async fn wait_for_connection(&self) -> Result<(), ZmqError> {
     let notify = self.notify_waiters.clone();
     loop {
+      // Create the `Notified` future *before* the checks: `notify_waiters()` only wakes futures
+      // that already exist, so an `add_connection`/`deactivate` landing between the check and
+      // the await would otherwise be missed and the waiting send would sleep on.
+      let notified = notify.notified();
       if self.deactivated.load(std::sync::atomic::Ordering::Acquire) {
         return Err(ZmqError::InvalidState("Socket closed".into()));
       }
@@ -117,7 +121,7 @@ impl LoadBalancer {
         return Ok(());
       }
       #[cfg(rzmq_verif)] crate::verif::balancer::schedule_point("lb_wait_after_check");
-      notify.notified().await;
+      notified.await;
     }
   }
 
